@@ -130,21 +130,4 @@ using B32 = rlbox::rlbox_vsbx<uint32_t, 32>;
 using B16 = rlbox::rlbox_vsbx<uint16_t, 16>;
 using B8 = rlbox::rlbox_vsbx<uint8_t, 8>;
 
-// helpers used by kernels ------------------------------------------------------
-// build a tainted<T> from raw application-side bits (the kernel's symbolic input)
-template<typename T, typename S>
-static inline rlbox::tainted<T, S> mk_tainted(uint64_t bits)
-{
-  rlbox::tainted<T, S> t;
-  static_assert(sizeof(t) <= 8);
-  std::memcpy(&t, &bits, sizeof(t));
-  return t;
-}
-template<typename T, typename S>
-static inline uint64_t raw_bits(const rlbox::tainted<T, S>& t)
-{
-  uint64_t r = 0;
-  static_assert(sizeof(t) <= 8);
-  std::memcpy(&r, &t, sizeof(t));
-  return r;
-}
+#include "verif_util.hpp"
